@@ -38,8 +38,11 @@ def probe(I, ns, nc):
     return (t, n, tuple(buf.elems))
 
 
-def do_call(I, kind, named_s, call, log, ns, nc, probes=False):
+def do_call(I, kind, named_s, call, log, ns, nc, probes=False, other=None):
     name, _, arg = call.partition(":")
+    if name == "init2":
+        log.append(("init", initialize(I, other[0], other[1])))
+        return
     if probes and name in ("iterate", "iterate_n", "run"):
         log.append(("probe", probe(I, ns, nc)))
         do_call(I, kind, named_s, call, log, ns, nc, False)
@@ -71,10 +74,14 @@ def do_call(I, kind, named_s, call, log, ns, nc, probes=False):
         raise HarnessError("unknown call " + call)
 
 
-def driver_calls(calls):
+def driver_calls(calls, other=None):
     out = []
     for c in calls:
         name, _, arg = c.partition(":")
+        if name == "init2":
+            out.append(("next", other[0], other[1]))
+            out.append("init")
+            continue
         if name == "fetch2":
             out += ["fetch", "fetch"]
             continue
@@ -98,6 +105,13 @@ def sym_sequence(rec, scen, on_path=None):
     kind, named, _ = record_setup(script, option)
     named_s = symbolize(kind, named, st, fields)
     ns, nc = len(system.network.species), system.space.size()
+    other = None
+    if scen.get("other"):
+        onet, osd, oopt = scen["other"]
+        osys = catalogue.build(onet, osd)
+        ok_, on_, _ = record_setup(make_script(osys, oopt, 0.25, policy=policy, t_sample=ts if ts else (0,), isp=isp, t_max=scen.get("tmax", 0.6), interval=0.5), oopt)
+        other = (ok_, on_)
+        ns, nc = max(ns, len(osys.network.species)), max(nc, osys.space.size())
 
     def body(I):
         for c in st.positivity():
@@ -113,7 +127,13 @@ def sym_sequence(rec, scen, on_path=None):
         log = []
         do_call(I, kind, named_s, "init", log, ns, nc)
         for c in calls:
-            do_call(I, kind, named_s, c, log, ns, nc, scen.get("probes", False))
+            if c.startswith("fetch") and other is not None and I.global_box("global_space_type").get() is not None:
+                # output buffers are sized from the script that is currently set up
+                cur = algo(I)
+                ns_c, nc_c = cur.field("n_species"), cur.field("n_meshes")
+                do_call(I, kind, named_s, c, log, ns_c, nc_c, scen.get("probes", False), other)
+                continue
+            do_call(I, kind, named_s, c, log, ns, nc, scen.get("probes", False), other)
         return log
 
     n = 0
@@ -127,7 +147,7 @@ def sym_sequence(rec, scen, on_path=None):
             unwound += 1
         n += 1
         rec.paths += 1
-        report_safety(rec, I, kind, named_s, calls, desc, option)
+        report_safety(rec, I, kind, named_s, calls, desc, option, other)
         if on_path and not pr.ended:
             on_path(I, pr.value, desc, kind, named_s)
     rec.extra["paths_cut_at_unwinding_bound"] = rec.extra.get("paths_cut_at_unwinding_bound", 0) + unwound
@@ -137,7 +157,7 @@ def sym_sequence(rec, scen, on_path=None):
 _replayed = {}
 
 
-def report_safety(rec, I, kind, named_s, calls, desc, option):
+def report_safety(rec, I, kind, named_s, calls, desc, option, other=None):
     rec.extra["safety_obligations_checked"] = rec.extra.get("safety_obligations_checked", 0) + I.n_safety_checked
     fails = list(I.safety)
     for e in I.events:
@@ -163,7 +183,7 @@ def report_safety(rec, I, kind, named_s, calls, desc, option):
                     rec.oblig(name + " (no model for replay)", "inconclusive", "", 0, desc)
                     continue
             named_c = concretize(named_s, m)
-            out = sandriver.run_scenario(kind, named_c, ["init"] + driver_calls(calls))
+            out = sandriver.run_scenario(kind, named_c, ["init"] + driver_calls(calls, other))
             r = {"ok": out["status"] != "ok", "report": out["report"], "scenario": out["scenario"]}
             _replayed[sig] = r
         rec.violation(sig, "%s: %s [%s] sanitizer build: %s" % (name, f["detail"], desc, r["report"][:300].replace("\n", " | ")),
